@@ -502,7 +502,8 @@ func (rw *rewriter) selectStmt(c *astutil.Cursor, n *ast.SelectStmt) {
 		cc := cl.(*ast.CommClause)
 		if cc.Comm == nil {
 			hasDefault = true
-			clauses = append(clauses, &ast.CaseClause{List: []ast.Expr{&ast.UnaryExpr{Op: token.SUB, X: &ast.BasicLit{Kind: token.INT, Value: "1"}}}, Body: cc.Body})
+			// the select's default becomes the switch's default (keeps "terminating statement" analysis intact)
+			clauses = append(clauses, &ast.CaseClause{List: nil, Body: cc.Body})
 			continue
 		}
 		id := rw.fresh("c")
@@ -539,6 +540,10 @@ func (rw *rewriter) selectStmt(c *astutil.Cursor, n *ast.SelectStmt) {
 	def := ast.NewIdent("false")
 	if hasDefault {
 		def = ast.NewIdent("true")
+	} else if len(clauses) > 0 {
+		// without a default branch exactly one numbered case fires: spell the last one as `default` so that a select
+		// whose every branch returns stays a terminating statement
+		clauses[len(clauses)-1].(*ast.CaseClause).List = nil
 	}
 	args := append([]ast.Expr{rw.site(n), def}, caseArgs...)
 	var sw ast.Stmt = &ast.SwitchStmt{Tag: rw.call("Select", args...), Body: &ast.BlockStmt{List: clauses}}
